@@ -44,7 +44,16 @@ pub fn convert_class(ast: &ASTTy, imp: &mut Imports, state: &State, ctx: &Contex
             let parents = isa
                 .as_ref()
                 .map_or_else(Vec::new, |isa| vec![isa.to_py(imp)]);
-            extract_class(ty, body, &[], &parents, imp, &state.in_interface(true), ctx)
+            extract_class(
+                ast,
+                ty,
+                body,
+                &[],
+                &parents,
+                imp,
+                &state.in_interface(true),
+                ctx,
+            )
         }
         NodeTy::Class {
             ty,
@@ -54,6 +63,7 @@ pub fn convert_class(ast: &ASTTy, imp: &mut Imports, state: &State, ctx: &Contex
         } => {
             let parents = convert_vec(parents, imp, state, ctx)?;
             extract_class(
+                ast,
                 ty,
                 body,
                 args,
@@ -85,7 +95,9 @@ pub fn convert_class(ast: &ASTTy, imp: &mut Imports, state: &State, ctx: &Contex
 /// - The class has a body and one or more parents has class arguments
 ///
 /// If creating a new constructor, it is inserted after the last found variable.
+#[allow(clippy::too_many_arguments)]
 fn extract_class(
+    ast: &ASTTy,
     ty: &StringName,
     body: &Option<Box<ASTTy>>,
     args: &[ASTTy],
@@ -161,10 +173,16 @@ fn extract_class(
         .map(|parent| match parent.clone() {
             Core::FunctionCall { function, .. } => match *function {
                 Core::Type { lit, .. } => Ok(Core::Id { lit }),
-                other => panic!("Expected type in parent, was {}", other),
+                other => {
+                    let msg = format!("parent which is not a type {}", other.to_string().trim());
+                    Err(Box::from(UnimplementedErr::new(ast, &msg)))
+                }
             },
             Core::Type { .. } => Ok(parent.clone()),
-            other => panic!("Expected type in parent, was {}", other),
+            other => {
+                let msg = format!("parent which is not a type {}", other.to_string().trim());
+                Err(Box::from(UnimplementedErr::new(ast, &msg)))
+            }
         })
         .collect::<GenResult<Vec<Core>>>()?;
 
